@@ -130,7 +130,7 @@ impl RegexMatcher {
         // The engine stops at the first alternative that matches, so anchor the
         // end to make it try the others until the whole path is consumed ('$'
         // would also accept the position before a final newline).
-        let inner = inside_group(pattern, matches!(regex_type, RegexType::PosixExtended));
+        let inner = inside_group(pattern, regex_type);
         let anchored = match regex_type {
             RegexType::PosixExtended => format!("({inner})\\'"),
             _ => format!("\\({inner}\\)\\'"),
@@ -145,8 +145,13 @@ impl RegexMatcher {
 /// the one it says; and in a POSIX extended regular expression a ')' without
 /// a '(' before it is an ordinary character, which would close the wrapping
 /// group instead, so it is escaped.  (The character classes the engine reads
-/// differently from POSIX are spelled out on the way.)
-fn inside_group(pattern: &str, extended: bool) -> String {
+/// differently from POSIX are spelled out on the way - GNU's emacs syntax has
+/// none: there "[[:digit:]" is a bracket expression - and a newline in a grep
+/// pattern is written as the alternation it is there.)
+fn inside_group(pattern: &str, regex_type: RegexType) -> String {
+    let extended = matches!(regex_type, RegexType::PosixExtended);
+    let classes = !matches!(regex_type, RegexType::Emacs);
+    let newline_alt = matches!(regex_type, RegexType::Grep);
     let mut result = String::with_capacity(pattern.len());
     let mut depth = 0usize;
     let mut chars = pattern.chars().peekable();
@@ -182,7 +187,7 @@ fn inside_group(pattern: &str, extended: bool) -> String {
                     if member == ']' {
                         break;
                     }
-                    if member == '[' && chars.peek() == Some(&':') {
+                    if classes && member == '[' && chars.peek() == Some(&':') {
                         let mut class = String::new();
                         for class_char in chars.by_ref() {
                             class.push(class_char);
@@ -211,6 +216,10 @@ fn inside_group(pattern: &str, extended: bool) -> String {
             '(' if extended => depth += 1,
             ')' if extended && depth > 0 => depth -= 1,
             ')' if extended => result.push('\\'),
+            '\n' if newline_alt => {
+                result.push_str("\\|");
+                continue;
+            }
             _ => {}
         }
         result.push(ch);
@@ -223,7 +232,12 @@ fn inside_group(pattern: &str, extended: bool) -> String {
 pub mod verif {
     /// The pattern as it is written inside the group it is wrapped in.
     pub fn inside_group(pattern: &str, extended: bool) -> String {
-        super::inside_group(pattern, extended)
+        let regex_type = if extended {
+            super::RegexType::PosixExtended
+        } else {
+            super::RegexType::PosixBasic
+        };
+        super::inside_group(pattern, regex_type)
     }
 }
 
